@@ -12,4 +12,6 @@ INVARIANT CopyIsolatedInv
 INVARIANT PermInvariantInv
 INVARIANT ResultIsRefInv
 INVARIANT InplaceLocalInv
+INVARIANT QuietStepInv
+INVARIANT NothingElseInv
 CHECK_DEADLOCK FALSE
